@@ -660,6 +660,137 @@ fn gen_nested(rng: &mut StdRng, big: bool) -> Nested {
     }
 }
 
+// Small scalar messages: archived forms with alignment 1 or 2 and sizes that are not multiples of 4
+// (u16, bool, three bytes, an optional byte, a byte next to a u16). Everything else in this file is
+// at least 4-byte aligned, which hides anything that pads, aligns or rounds frame bodies.
+#[repr(C)]
+#[derive(Serialize, Deserialize, Archive, PartialEq, Debug, Clone)]
+#[archive(check_bytes)]
+pub struct Tiny(pub u16);
+
+#[repr(C)]
+#[derive(Serialize, Deserialize, Archive, PartialEq, Debug, Clone)]
+#[archive(check_bytes)]
+pub struct Flag(pub bool);
+
+#[repr(C)]
+#[derive(Serialize, Deserialize, Archive, PartialEq, Debug, Clone)]
+#[archive(check_bytes)]
+pub struct Rgb {
+    pub r: u8,
+    pub g: u8,
+    pub b: u8,
+}
+
+#[repr(C)]
+#[derive(Serialize, Deserialize, Archive, PartialEq, Debug, Clone)]
+#[archive(check_bytes)]
+pub struct OptByte(pub Option<u8>);
+
+#[repr(C)]
+#[derive(Serialize, Deserialize, Archive, PartialEq, Debug, Clone)]
+#[archive(check_bytes)]
+pub struct ByteWord {
+    pub a: u8,
+    pub w: u16,
+}
+
+pub struct SmallSvc {
+    seen: Arc<Mutex<Vec<String>>>,
+}
+
+impl RpcService for SmallSvc {
+    fn register_handlers(r: &mut ServiceRegistry<Self>) {
+        r.add_handler::<Tiny>();
+        r.add_handler::<Flag>();
+        r.add_handler::<Rgb>();
+        r.add_handler::<OptByte>();
+        r.add_handler::<ByteWord>();
+    }
+}
+
+macro_rules! small_echo {
+    ($ty:ident) => {
+        #[async_trait]
+        impl Handler<$ty> for SmallSvc {
+            type Reply = $ty;
+            async fn on_message(&self, m: Request<$ty>) -> Result<$ty, Status> {
+                let v: $ty = m.deserialize_view().map_err(Status::internal)?;
+                self.seen.lock().push(format!("{v:?}"));
+                Ok(v)
+            }
+        }
+    };
+}
+small_echo!(Tiny);
+small_echo!(Flag);
+small_echo!(Rgb);
+small_echo!(OptByte);
+small_echo!(ByteWord);
+
+/// Round trips of small scalar messages over real loopback HTTP/2 and through DataView directly.
+async fn c12_small_messages(seed: u64, report: &mut Report) {
+    let addr = free_tcp_addr();
+    let server = match Server::listen(addr).await {
+        Ok(s) => s,
+        Err(e) => {
+            report.run_inconclusive.push(format!("cannot listen on loopback: {e}"));
+            return;
+        },
+    };
+    let seen: Arc<Mutex<Vec<String>>> = Default::default();
+    server.add_service(SmallSvc { seen: seen.clone() });
+    let client = RpcClient::<SmallSvc>::new(Channel::connect(addr));
+    let mut rng = rng_for(seed, 0xC12, 0x5A11);
+    macro_rules! trip {
+        ($val:expr, $ty:ident) => {{
+            let v: $ty = $val;
+            let mut out = CaseOut::default();
+            // (i) the frame by itself: what the sender writes must read back as the same value
+            match datacake_rpc::to_view_bytes(&v) {
+                Ok(bytes) => match DataView::<$ty>::using(bytes) {
+                    Ok(view) => {
+                        let back: Option<$ty> = view.deserialize_view().ok();
+                        if back.as_ref() != Some(&v) {
+                            out.violate("C12:frame-reads-back-as-a-different-value:small-scalar-message", json!({"type": stringify!($ty), "sent": format!("{v:?}"), "read_back": format!("{back:?}")}));
+                        }
+                    },
+                    Err(_) => out.violate("C12:valid-frame-refused", json!({"type": stringify!($ty), "value": format!("{v:?}")})),
+                },
+                Err(e) => out.violate("C12:valid-value-not-serializable", json!({"type": stringify!($ty), "error": e.to_string()})),
+            }
+            // (ii) over the wire
+            match client.send(&v).await {
+                Ok(reply) => {
+                    let back: Option<$ty> = reply.deserialize_view().ok();
+                    let saw = seen.lock().pop();
+                    if saw.as_deref() != Some(format!("{v:?}").as_str()) {
+                        out.violate("C12:handler-observed-different-value", json!({"type": stringify!($ty), "sent": format!("{v:?}"), "handler_saw": saw}));
+                    }
+                    if back.as_ref() != Some(&v) {
+                        out.violate("C12:client-observed-different-reply", json!({"type": stringify!($ty), "sent": format!("{v:?}"), "reply": format!("{back:?}")}));
+                    }
+                },
+                Err(e) => out.violate("C12:valid-request-failed", json!({"type": stringify!($ty), "error": format!("{e:?}")})),
+            }
+            out.count("small_scalar_roundtrips", 1);
+            out.nontrivial = Some(hash_of(&(stringify!($ty), format!("{v:?}"))));
+            report.absorb(out);
+        }};
+    }
+    for w in [0u16, 1, 255, 256, 0xABCD, u16::MAX] {
+        trip!(Tiny(w), Tiny);
+    }
+    for _ in 0..60 {
+        trip!(Tiny(rng.gen()), Tiny);
+        trip!(Flag(rng.gen()), Flag);
+        trip!(Rgb { r: rng.gen(), g: rng.gen(), b: rng.gen() }, Rgb);
+        trip!(OptByte(if rng.gen_bool(0.3) { None } else { Some(rng.gen()) }), OptByte);
+        trip!(ByteWord { a: rng.gen(), w: rng.gen() }, ByteWord);
+    }
+    server.shutdown();
+}
+
 const BLOB_SIZES: [usize; 16] = [0, 1, 3, 15, 16, 17, 255, 256, 257, 4095, 4096, 4097, 65_536, 300_000, 1 << 20, 2 << 20];
 
 /// Independent bitwise CRC-32 (IEEE, reflected), not the crate the code uses.
@@ -1197,7 +1328,7 @@ pub fn c12(args: &Args) {
     let mut report = Report::new(
         args,
         "E3-wire",
-        "round trips over a real loopback HTTP/2 server: generated Fixed / Mixed (strings, vectors, options, blobs to 64 KiB) / Nested (vectors of structs, boxed options, hash maps, rows) / Blob (0 B..2 MiB, rkyv Raw) values and handler errors of every ErrorCode with arbitrary messages; handler-side decoded value and client-side reply compared with what was sent. Frame monitor: for 18 valid frames (6 message types x 3 values, <= 320 B) EVERY single-bit flip, EVERY truncation, extensions by 1..8 bytes (zeros, copies, random), the 4-zero-byte frame, the empty frame and bodies shorter than the archived root carrying a CORRECT checksum go (i) to DataView::using under catch_unwind and (ii, sampled + all short ones) as raw HTTP/2 POSTs to the live handler URI: oracle = own bitwise CRC-32 + size_of::<Archived<T>>; must-refuse frames must give InvalidView / 400+InvalidPayload with the handler counter unchanged, panics and dropped connections are violations. Large frames (27 Blob frames of 4 KiB..300 KiB, sizes around 4/16/64 KiB block boundaries): every bit of the first 32 and last 96 bytes, one bit per 1 KiB block, 300 random bits, truncations, extensions, same oracle. Client side: every bit of a small reply corrupted in transit (in-memory transport) must surface as InvalidPayload. Non-trivial = mutant the oracle says must be refused / distinct values; distinct by content hash.",
+        "round trips over a real loopback HTTP/2 server: generated Fixed / Mixed (strings, vectors, options, blobs to 64 KiB) / Nested (vectors of structs, boxed options, hash maps, rows) / Blob (0 B..2 MiB, rkyv Raw) values and handler errors of every ErrorCode with arbitrary messages; handler-side decoded value and client-side reply compared with what was sent. Frame monitor: for 18 valid frames (6 message types x 3 values, <= 320 B) EVERY single-bit flip, EVERY truncation, extensions by 1..8 bytes (zeros, copies, random), the 4-zero-byte frame, the empty frame and bodies shorter than the archived root carrying a CORRECT checksum go (i) to DataView::using under catch_unwind and (ii, sampled + all short ones) as raw HTTP/2 POSTs to the live handler URI: oracle = own bitwise CRC-32 + size_of::<Archived<T>>; must-refuse frames must give InvalidView / 400+InvalidPayload with the handler counter unchanged, panics and dropped connections are violations. Small scalar messages (u16, bool, three bytes, optional byte, byte + u16: archived alignment 1-2, sizes not multiples of 4) round-trip through DataView and over the wire. Large frames (27 Blob frames of 4 KiB..300 KiB, sizes around 4/16/64 KiB block boundaries): every bit of the first 32 and last 96 bytes, one bit per 1 KiB block, 300 random bits, truncations, extensions, same oracle. Client side: every bit of a small reply corrupted in transit (in-memory transport) must surface as InvalidPayload. Non-trivial = mutant the oracle says must be refused / distinct values; distinct by content hash.",
     );
     if std::env::var("MON_PANIC_MSGS").is_err() {
         std::panic::set_hook(Box::new(|_| {}));
@@ -1233,10 +1364,12 @@ pub fn c12(args: &Args) {
     report.extra.insert("build".into(), json!(build));
     c12_frames_in_children(args, &mut report, every, build);
     block_on_real(2, c12_large_frames(seed, &mut report, every));
+    block_on_real(2, c12_small_messages(seed, &mut report));
     block_on_paused(c12_corrupt_replies(&mut report));
     let _ = std::panic::take_hook();
     report.floor("frame_families_completed", C12_FAMILIES as u64);
     report.floor("large_frame_mutants", 10_000);
+    report.floor("small_scalar_roundtrips", 200);
     report.floor("roundtrips_over_tcp", 300);
     report.floor("frames_that_must_be_refused", 5_000);
     report.floor("raw_posts", 500);
